@@ -70,7 +70,7 @@ func (n *netStub) AskSignPkMessage(msg *model.SignPubkeyReqMessage, receiver gro
 // Msg describes one delivered verify message.
 type Msg struct {
 	From  int    `json:"from"`  // member index (or -1: non-member)
-	Class string `json:"class"` // honest | other-hash | replay-block-share | garbage | identity | bad-beacon | replay-beacon | non-member | duplicate | wrong-filed-hash
+	Class string `json:"class"` // honest | other-hash | consistent-other-hash | signpk-overwrite | replay-block-share | garbage | identity | bad-beacon | replay-beacon | non-member | duplicate | wrong-filed-hash
 	Aux   int    `json:"aux,omitempty"`
 }
 
@@ -145,6 +145,7 @@ func runCase(r *mon.Run, g *group, c Case, rng *rand.Rand, ns *netStub) {
 		validBeacon[i] = sigBytes(groupsig.Sign(g.dkg.SignSKs[i], preRandom))
 		idIndex[g.dkg.IDs[i].GetHexString()] = i
 	}
+	pre := map[int]func(){} // delivered through another entry point right before message mi
 	mkMsg := func(mi int, m Msg) *model.ConsensusVerifyMessage {
 		cvm := &model.ConsensusVerifyMessage{BlockHash: bhHash, Id: fmt.Sprintf("m%d-%d", c.Seq, mi)}
 		i := m.From
@@ -161,6 +162,22 @@ func runCase(r *mon.Run, g *group, c Case, rng *rand.Rand, ns *netStub) {
 		switch m.Class {
 		case "other-hash": // well-signed share over another hash, filed under this block
 			blockSig, dataHash = groupsig.Sign(sk, otherHash.Bytes()), otherHash
+		case "consistent-other-hash": // self-consistent message of another block (BlockHash = data hash = other hash) handed to this round
+			blockSig, dataHash = groupsig.Sign(sk, otherHash.Bytes()), otherHash
+			cvm.BlockHash = otherHash
+		case "signpk-overwrite":
+			// the sender first announces, through the sign-pubkey message handler, another key for
+			// the id of member From (self-signed with that key, as the handler requires), then sends
+			// shares made with that key under From's id
+			ask := g.outsider.SecKey
+			spk := &model.SignPubKeyMessage{GroupHash: g.info.GroupInitInfo.GroupHeader.Hash, GroupID: g.gid, SignPK: *groupsig.GeneratePubkey(ask), GroupMemberNum: int32(g.n)}
+			h := spk.GenHash()
+			spk.SignInfo = model.MakeSignInfo(h, groupsig.Sign(ask, h.Bytes()), id, common.ConsensusVersion)
+			pre[mi] = func() {
+				group_create.GroupCreateProcessor.OnMessageSignPK(spk)
+				r.Count("signpk_announcements_for_known_member", 1)
+			}
+			blockSig, beacon = groupsig.Sign(ask, bhHash.Bytes()), groupsig.Sign(ask, preRandom)
 		case "replay-block-share": // member Aux's valid share under From's id
 			blockSig = groupsig.Sign(g.dkg.SignSKs[m.Aux], bhHash.Bytes())
 		case "garbage":
@@ -190,6 +207,9 @@ func runCase(r *mon.Run, g *group, c Case, rng *rand.Rand, ns *netStub) {
 	}
 	for i := 0; i < c.Future && i < len(msgs); i++ {
 		future[msgs[i].Id] = msgs[i]
+		if f := pre[i]; f != nil {
+			f()
+		}
 	}
 	round := logical.VerifNewRound1(g.info, preBH, bh, &blockChainStub{}, g.dkg.IDs[0], future)
 	fail := func(sig, what string) { r.Violation(sig, what, c) }
@@ -229,6 +249,9 @@ func runCase(r *mon.Run, g *group, c Case, rng *rand.Rand, ns *netStub) {
 			judge("after Start with stored messages")
 		}
 		for mi := c.Future; mi < len(msgs); mi++ {
+			if f := pre[mi]; f != nil {
+				f()
+			}
 			if round.CanAccept(msgs[mi]) != 0 {
 				r.Count("messages_not_accepted_by_round", 1)
 				continue
@@ -286,7 +309,7 @@ func genCase(rng *rand.Rand, n, k, seq int) Case {
 	for _, i := range rng.Perm(n)[:minInt(h, n)] {
 		msgs = append(msgs, Msg{From: i, Class: "honest"})
 	}
-	classes := []string{"other-hash", "other-hash", "replay-block-share", "garbage", "identity", "bad-beacon", "replay-beacon"}
+	classes := []string{"other-hash", "other-hash", "replay-block-share", "garbage", "identity", "bad-beacon", "replay-beacon", "consistent-other-hash", "consistent-other-hash", "signpk-overwrite"}
 	for _, b := range byz {
 		cl := classes[rng.Intn(len(classes))]
 		msgs = append(msgs, Msg{From: b, Class: cl, Aux: (b + 1 + rng.Intn(n-1)) % n})
@@ -385,7 +408,7 @@ func child(args []string) {
 	cnt := 0
 	if mode == "exhaustive" {
 		// n <= 4: one Byzantine message of each class + all honest messages, every arrival order
-		for _, cl := range []string{"other-hash", "replay-block-share", "bad-beacon", "garbage"} {
+		for _, cl := range []string{"other-hash", "replay-block-share", "bad-beacon", "garbage", "consistent-other-hash", "signpk-overwrite"} {
 			var ms []Msg
 			for i := 0; i < n; i++ {
 				ms = append(ms, Msg{From: i, Class: "honest"})
